@@ -41,6 +41,7 @@ import (
 	"github.com/tucats/ego/internal/language/tokens"
 	"github.com/tucats/ego/internal/router"
 	"github.com/tucats/ego/internal/runtime/profile"
+	"github.com/tucats/ego/internal/server/assets"
 	"github.com/tucats/ego/internal/server/auth"
 	"github.com/tucats/ego/internal/server/oauth"
 	"github.com/tucats/ego/internal/util"
@@ -174,6 +175,15 @@ func newWorld(scratch string) *world {
 	must(os.MkdirAll(filepath.Join(egoPath, "oauth"), 0o700), "scratch")
 	must(copyTree(filepath.Join(os.Getenv("VERIF_REPO"), "lib"), w.lib), "copy of the library")
 
+	// fixtures of the harness's own in the scratch asset root: a script and a style
+	// sheet that minification shortens (what is cached is then shorter than the file)
+	must(os.MkdirAll(filepath.Join(w.lib, "assets", "verif"), 0o755), "asset fixtures")
+	must(os.WriteFile(filepath.Join(w.lib, "assets", "verif", "app.js"), []byte("// a long leading comment that minification removes entirely ..............\n"+
+		strings.Repeat("function   f ( a ,  b )  {\n    // add\n    return   a  +  b ;\n}\n\n", 20)), 0o644), "asset fixtures")
+	must(os.WriteFile(filepath.Join(w.lib, "assets", "verif", "app.css"), []byte("/* a long leading comment that minification removes entirely .............. */\n"+
+		strings.Repeat("body   {\n    margin :  0 ;\n    /* none */\n    padding :  0 ;\n}\n\n", 20)), 0o644), "asset fixtures")
+	must(os.WriteFile(filepath.Join(w.lib, "assets", "verif", "plain.txt"), []byte(strings.Repeat("0123456789abcdef\n", 40)), 0o644), "asset fixtures")
+
 	// the process environment names only scratch places
 	must(os.Setenv("EGO_PATH", egoPath), "setenv")
 
@@ -192,6 +202,7 @@ func newWorld(scratch string) *world {
 	settings.SetDefault(defs.RuntimeDeepScopeSetting, "true")
 	settings.SetDefault(defs.AllowFunctionRedefinitionSetting, "true")
 	settings.SetDefault(defs.RuntimePanicsSetting, "false")
+	settings.SetDefault(defs.JSMinifySetting, "true") // the documented default
 	settings.SetDefault(defs.OAuthASEnabledSetting, "true")
 	settings.SetDefault(defs.OAuthASIssuerSetting, asIssuer)
 	settings.SetDefault(defs.OAuthASClientFileSetting, filepath.Join(egoPath, "clients.json"))
@@ -530,6 +541,7 @@ func (w *world) restore() []string {
 	// stray files of the database kind next to the data base (created by odd DSN or table names)
 	w.setLoggers(false)
 	w.coldCaches()
+	assets.FlushAssetCache()
 
 	// the log never grows beyond one case
 	_ = os.Truncate(w.logFile, 0)
